@@ -23,7 +23,7 @@ RULE = ("scenario = one client call (send_message or a typed helper) + 0..12 tim
         "{matching result/error, same-id server request, other-id response (near misses), notification, progress, "
         "batch list, duplicate match, null result}; non-trivial = at least one distractor or boundary-placed delivery "
         "was consumed while the request was in flight")
-PROBES = ["delivery_exactly_at_deadline", "delivery_exactly_on_poll_edge", "match_after_deadline",
+PROBES = ["call_with_progress_callback", "write_stream_stalled", "delivery_exactly_at_deadline", "delivery_exactly_on_poll_edge", "match_after_deadline",
           "same_id_request_delivered", "batch_delivered", "prequeued_before_call"]
 TIERS = {"quick": {"runs": 40000, "wall": 45.0}, "thorough": {"runs": 4000000, "wall": 560.0}}
 ASSUMPTIONS = [
@@ -126,7 +126,12 @@ def generate(rng: random.Random, tier: str) -> dict:
     else:
         id_shape, mid = "auto", None
         _, method, params, _ = _helpers()[api]
-    rid = mid if mid else str(FakeUUID(uuid_seed).value(0))
+    with_progress = api == "send_message" and rng.random() < 0.25
+    rid = mid if mid else str(FakeUUID(uuid_seed).value(1 if with_progress else 0))
+    slow_writer = None
+    if rng.random() < 0.08:
+        # the transport takes the request off the (unbuffered) write stream only after a while: send() blocks that long
+        slow_writer = {"delay": rng.choice([1, 100, int(timeout / TICK) - 1, int(timeout / TICK), int(timeout / TICK) + 50, 2 * int(timeout / TICK)])}
     deadline_t = t0 + int(timeout / TICK)
     horizon = deadline_t + 30
     nmax = 12 if big else 8
@@ -165,10 +170,12 @@ def generate(rng: random.Random, tier: str) -> dict:
             ev["scalar"] = rng.choice(["list", "str", "int", "emptydict", "false", "zero"])
         events.append(ev)
     return {"v": 1, "api": api, "mode": mode, "uuid_seed": uuid_seed, "message_id": mid, "method": method,
-            "params": params, "timeout": timeout, "t0": t0, "events": events}
+            "params": params, "timeout": timeout, "t0": t0, "events": events, "with_progress": with_progress, "slow_writer": slow_writer}
 
 
 def simplify(scn):
+    if scn.get("slow_writer"):
+        c = _cp(scn); c["slow_writer"] = None; yield c
     for i, ev in enumerate(scn["events"]):
         if ev.get("hops"):
             c = _cp(scn); c["events"][i]["hops"] = 0; yield c
@@ -235,14 +242,28 @@ def execute(scn: dict) -> dict:
 
     api, mode, timeout, t0 = scn["api"], scn["mode"], scn["timeout"], scn["t0"]
     fu = FakeUUID(scn["uuid_seed"])
-    rid = scn["message_id"] if scn["message_id"] else str(fu.value(0))
+    with_progress = bool(scn.get("with_progress"))
+    rid = scn["message_id"] if scn["message_id"] else str(fu.value(1 if with_progress else 0))
+    ptoken = str(fu.value(0)) if with_progress else None
     T0 = ticks(t0)
     st = {}
 
     async def main(sim):
         n = len(scn["events"])
         to_client_send, to_client_recv = anyio.create_memory_object_stream(max(100, n + 10))
-        from_client_send, from_client_recv = anyio.create_memory_object_stream(100)
+        sw = scn.get("slow_writer")
+        from_client_send, from_client_recv = anyio.create_memory_object_stream(0 if sw else 100)
+        if sw:
+            async def slow_transport():
+                await anyio.sleep(T0 + ticks(sw["delay"]))
+                try:
+                    while True:
+                        await from_client_recv.receive()
+                except (anyio.EndOfStream, anyio.ClosedResourceError):
+                    return
+            import asyncio
+            asyncio.get_running_loop().create_task(slow_transport(), name="slow-transport")
+            sim.fault("write_stream_stalled")
         rr = RecRecv(sim, to_client_recv)
         ws = RecSend(sim, from_client_send)
         st["rr"], st["ws"] = rr, ws
@@ -251,6 +272,8 @@ def execute(scn: dict) -> dict:
 
         def deliver(i, ev):
             data = _build_msg(ev, rid, api)
+            if ev["kind"] == "progress" and ev.get("token") == "right?" and ptoken is not None:
+                data["params"]["progressToken"] = ptoken  # the token the request announced
             if isinstance(data, list):
                 # a JSONRPCBatch* value (type-legal member of the JSONRPCMessage union): list of built members
                 obj = [build_inbound(mode, d) for d in data]
@@ -278,6 +301,10 @@ def execute(scn: dict) -> dict:
                 if scn["message_id"] is not None:
                     kw["message_id"] = scn["message_id"]
                 import copy
+                if with_progress:
+                    async def _cb(progress, total, message):
+                        st.setdefault("cb", []).append((progress, total, message))
+                    kw["progress_callback"] = _cb
                 res = await sm.send_message(rr, ws, scn["method"], copy.deepcopy(scn["params"]), **kw)
             else:
                 kwargs, _, _, _ = _helpers()[api]
@@ -288,7 +315,7 @@ def execute(scn: dict) -> dict:
         st["t_done"] = sim.now()
         sim.rec("client", "done", st["outcome"][0])
         # quiescence: nothing else may be written afterwards
-        await anyio.sleep(1.0)
+        await anyio.sleep(1.0 + (ticks(sw["delay"]) if sw else 0.0))
 
     with patched((_uuid, "uuid4", fu)):
         info = run_sim(main, max_steps=50_000, max_vtime=100.0)
@@ -329,6 +356,11 @@ def _oracle(scn, st, rid, sim, out):
     else:
         e_w, t_w, w = writes[0]
         exp_params = scn["params"]
+        if scn.get("with_progress"):
+            import copy as _c
+            exp_params = _c.deepcopy(exp_params) if exp_params is not None else {}
+            exp_params.setdefault("_meta", {})["progressToken"] = str(FakeUUID(scn["uuid_seed"]).value(0))
+            probe("call_with_progress_callback")
         ok = (w.get("jsonrpc") == "2.0" and w.get("method") == scn["method"] and w.get("id") == rid
               and type(w.get("id")) is str)
         if exp_params is None:
@@ -339,7 +371,9 @@ def _oracle(scn, st, rid, sim, out):
             _v(out, "write-content", "request", f"request written {w!r:.300} != expected id={rid!r} method={scn['method']!r} params={exp_params!r}")
         if rr.calls and rr.calls[0][0] < e_w:
             _v(out, "write-order", "wait-before-write", "receive() was called before the request was written")
-        if t_w != st["t_call"]:
+        if scn.get("slow_writer"):
+            probe("write_stream_stalled")
+        elif t_w != st["t_call"]:
             _v(out, "write-order", "late-write", f"request written at {t_w}, call started at {st['t_call']}")
     deadline = t_w + timeout
 
